@@ -542,6 +542,27 @@ def in_variant(b, block, place, variant, gs=None):
     return False
 
 
+def answers_only_with(b, call_name):
+    """Does the function answer on every path with the result of one call of `call_name` - nothing else decides its result (no fast path that
+    answers by other means, no post-processing)? Returns (ok, reason)."""
+    from mirlib import describe_operand
+    calls = [c for c in b.calls if c.name == call_name]
+    if len(calls) != 1:
+        return False, "%d calls of %s" % (len(calls), call_name)
+    c = calls[0]
+    ok, wit = b.must_pass([0], {c.block})
+    if not ok:
+        return False, "a path answers without calling %s (blocks %s)" % (call_name, (wit or [])[:8])
+    for i, j, p_, rv, line in b.assigns():
+        if p_[0] == 0 and not p_[1]:
+            srcs = b.sources(rv[1]) if rv[0] == "use" else None
+            if srcs is None or not all(x[0] == "call" and x[1] is c for x in srcs if x[0] in ("call", "const", "bin", "un", "agg")) or not any(x[0] == "call" and x[1] is c for x in srcs):
+                return False, "the result is also computed by other means (line %s)" % line
+    if c.dest is not None and c.dest[0] == 0:
+        return True, ""
+    return True, ""
+
+
 def in_execution_order(b, calls):
     """Calls that lie on one path, in the order they execute (block numbers say nothing once a helper has been spliced in): sorted by how many of
     the others reach them."""
